@@ -432,6 +432,57 @@ func main() {
 				c.Violation(h.name+"|shape-changes-when-the-callers-slice-is-modified-afterwards", h.name+": Evaluate changed after the slice that had been passed to the constructor was overwritten", map[string]any{"constructor": h.name})
 			}
 		}
+		// an operand changed AFTER it was used as an operand (a blend installed on a nested union): the outer
+		// shape holds the operand, not a copy of what it was made of, so the outer value is the pointwise
+		// min / max with the operand's value at the time of the call
+		{
+			c3 := cir(0, 0.9)
+			in2 := sdf.Union2D(cir(0, 0), cir(0.8, 0))
+			out2 := sdf.Union2D(in2, c3)
+			dif2 := sdf.Difference2D(cir(0.3, 0.3), in2)
+			int2 := sdf.Intersect2D(in2, cir(0.4, 0.2))
+			in2.(*sdf.UnionSDF2).SetMin(sdf.PolyMin(0.3))
+			s3 := sph(0, 0.9, 0)
+			in3 := sdf.Union3D(sph(0, 0, 0), sph(0.8, 0, 0))
+			out3 := sdf.Union3D(in3, s3)
+			dif3 := sdf.Difference3D(sph(0.3, 0.3, 0), in3)
+			int3 := sdf.Intersect3D(in3, sph(0.4, 0.2, 0))
+			in3.(*sdf.UnionSDF3).SetMin(sdf.PolyMin(0.3))
+			states += 6
+			bad := func(name string, p any, got, want float64) {
+				c.Violation(name+"|outer-shape-ignores-a-blend-installed-on-its-operand-afterwards", fmt.Sprintf("%s at %v: %v, pointwise rule on the operands' current values %v", name, p, got, want), map[string]any{"constructor": name, "history": "inner := Union(a, b); outer := op(inner, c); inner.SetMin(PolyMin(0.3))"})
+			}
+			for _, p := range p2 {
+				i := in2.Evaluate(p)
+				if g, w := out2.Evaluate(p), math.Min(i, c3.Evaluate(p)); g != w {
+					bad("Union2D(nested union, circle)", p, g, w)
+					break
+				}
+				if g, w := dif2.Evaluate(p), math.Max(cir(0.3, 0.3).Evaluate(p), -i); g != w {
+					bad("Difference2D(circle, nested union)", p, g, w)
+					break
+				}
+				if g, w := int2.Evaluate(p), math.Max(i, cir(0.4, 0.2).Evaluate(p)); g != w {
+					bad("Intersect2D(nested union, circle)", p, g, w)
+					break
+				}
+			}
+			for _, p := range p3 {
+				i := in3.Evaluate(p)
+				if g, w := out3.Evaluate(p), math.Min(i, s3.Evaluate(p)); g != w {
+					bad("Union3D(nested union, sphere)", p, g, w)
+					break
+				}
+				if g, w := dif3.Evaluate(p), math.Max(sph(0.3, 0.3, 0).Evaluate(p), -i); g != w {
+					bad("Difference3D(sphere, nested union)", p, g, w)
+					break
+				}
+				if g, w := int3.Evaluate(p), math.Max(i, sph(0.4, 0.2, 0).Evaluate(p)); g != w {
+					bad("Intersect3D(nested union, sphere)", p, g, w)
+					break
+				}
+			}
+		}
 		// RotateToVector for parallel, anti-parallel and general direction pairs of any length: a sphere on the
 		// base direction must end up on the target direction (independent of which half turn is chosen for
 		// opposite vectors)
